@@ -18,12 +18,15 @@ pub struct Config {
     pub values: u8,
     pub geom: Option<(usize, usize)>,
     pub seed: u64,
+    /// 0: the sink takes every write whole; k > 0: it takes at most k bytes per call and
+    /// answers every 7th call with ErrorKind::Interrupted (still discarding everything)
+    pub cap: u8,
 }
 
 impl Config {
     fn to_json(&self) -> Value {
         json!({"n": self.n, "fanout": self.fanout, "keylen": self.keylen, "kind": self.kind, "values": self.values,
-               "geometry": self.geom.map(|(r, c)| json!([r, c])), "seed": self.seed.to_string()})
+               "geometry": self.geom.map(|(r, c)| json!([r, c])), "seed": self.seed.to_string(), "sink_cap": self.cap})
     }
     fn from_json(v: &Value) -> Option<Config> {
         Some(Config {
@@ -37,6 +40,7 @@ impl Config {
                 _ => None,
             },
             seed: v.get("seed")?.as_str()?.parse().ok()?,
+            cap: v.get("sink_cap").and_then(|x| x.as_u64()).unwrap_or(0) as u8,
         })
     }
     fn cells(&self) -> u64 {
@@ -47,10 +51,21 @@ impl Config {
 
 struct Discard {
     bytes: u64,
+    cap: usize,
+    calls: u64,
 }
 
 impl Write for Discard {
     fn write(&mut self, buf: &[u8]) -> std::io::Result<usize> {
+        self.calls += 1;
+        if self.cap > 0 {
+            if self.calls % 7 == 0 {
+                return Err(std::io::ErrorKind::Interrupted.into());
+            }
+            let n = buf.len().min(self.cap);
+            self.bytes += n as u64;
+            return Ok(n);
+        }
         self.bytes += buf.len() as u64;
         Ok(buf.len())
     }
@@ -70,7 +85,7 @@ pub fn child(args: &[String]) -> i32 {
     let _ = fst::raw::verif::take_evictions();
     alloc::enable();
     let base = alloc::live();
-    let mut b = match fst::raw::Builder::new(Discard { bytes: 0 }) {
+    let mut b = match fst::raw::Builder::new(Discard { bytes: 0, cap: cfg.cap as usize, calls: 0 }) {
         Ok(b) => b,
         Err(_) => return 3,
     };
@@ -155,6 +170,9 @@ pub fn check(cfg: &Config, rec: &mut Rec) -> Result<Value, Fail> {
     if !rec.muted {
         rec.class(if forced { "cache_forced_to_forget(>10x cells evictions)" } else { "cache_not_saturated" });
         rec.class(if cfg.values == 0 { "set" } else { "map" });
+        if cfg.cap > 0 {
+            rec.class("short_write_sink");
+        }
         if forced {
             rec.nontrivial(H::new().b(serde_json::to_string(&cfg.to_json()).unwrap().as_bytes()).get());
         }
@@ -166,29 +184,34 @@ pub fn check(cfg: &Config, rec: &mut Rec) -> Result<Value, Fail> {
 }
 
 pub fn run(e: &Engine) {
-    e.set_rule("cases are (N, fan-out F, key length L, set/map, cache geometry): key sequences with bounded fan-out and length and an unbounded number of distinct nodes (base-F counter prefix + hashed suffix) streamed to a discarding sink inside a single-threaded child process with a counting global allocator; live heap is sampled after N/2 keys and the peak is tracked from there to the end of finish(); violation iff peak > 1.10 * live(N/2) + 128 KiB (+ 8 KiB only, for caches of <= 256 cells); non-trivial = the eviction hook counted more than 10x the number of cache cells (the cache was forced to forget); distinct by configuration");
+    e.set_rule("cases are (N, fan-out F, key length L, set/map, cache geometry): key sequences with bounded fan-out and length and an unbounded number of distinct nodes (base-F counter prefix + hashed suffix) streamed to a discarding sink (taking every write whole, or at most 1/3/4/8 bytes per call with every 7th call interrupted) inside a single-threaded child process with a counting global allocator; live heap is sampled after N/2 keys and the peak is tracked from there to the end of finish(); violation iff peak > 1.10 * live(N/2) + 128 KiB (+ 8 KiB only, for caches of <= 256 cells); non-trivial = the eviction hook counted more than 10x the number of cache cells (the cache was forced to forget); distinct by configuration");
     e.assume("an asymptotic claim checked at finitely many N; growth slower than 5% per doubling would pass");
     let n: u64 = e.tier.pick(1_500_000, 4_000_000);
     let mut cfgs = vec![];
     for (i, &(fanout, keylen)) in [(2u8, 28u8), (3, 24), (4, 20), (8, 16)].iter().enumerate() {
         for (j, geom) in [Some((64usize, 2usize)), Some((1000, 2)), None].into_iter().enumerate() {
-            cfgs.push(Config { n, fanout, keylen, kind: 1 + ((i + j) % 2) as u8, values: if (i + j) % 2 == 0 { 0 } else { 2 }, geom, seed: crate::engine::mix(e.seed, (i * 3 + j) as u64) });
+            cfgs.push(Config { n, fanout, keylen, kind: 1 + ((i + j) % 2) as u8, values: if (i + j) % 2 == 0 { 0 } else { 2 }, geom, seed: crate::engine::mix(e.seed, (i * 3 + j) as u64), cap: 0 });
         }
     }
     // long keys, wide nodes, decreasing values
-    cfgs.push(Config { n: n / 8, fanout: 3, keylen: 250, kind: 1, values: 3, geom: Some((64, 2)), seed: crate::engine::mix(e.seed, 60) });
-    cfgs.push(Config { n: n / 2, fanout: 40, keylen: 12, kind: 1, values: 2, geom: Some((64, 2)), seed: crate::engine::mix(e.seed, 61) });
+    cfgs.push(Config { n: n / 8, fanout: 3, keylen: 250, kind: 1, values: 3, geom: Some((64, 2)), seed: crate::engine::mix(e.seed, 60), cap: 0 });
+    cfgs.push(Config { n: n / 2, fanout: 40, keylen: 12, kind: 1, values: 2, geom: Some((64, 2)), seed: crate::engine::mix(e.seed, 61), cap: 0 });
     // (no wide-node configuration under the default geometry: 20 000 cells x 40-transition buffers
     // saturate only after several million keys, so "live at N/2" would not be the plateau — a first
     // version of this check raised exactly that false alarm on the unchanged tree)
-    cfgs.push(Config { n: n / 2, fanout: 40, keylen: 12, kind: 2, values: 0, geom: Some((1000, 2)), seed: crate::engine::mix(e.seed, 62) });
+    cfgs.push(Config { n: n / 2, fanout: 40, keylen: 12, kind: 2, values: 0, geom: Some((1000, 2)), seed: crate::engine::mix(e.seed, 62), cap: 0 });
     // keys that are proper prefixes of their successors (k, k+x): leaf nodes that later gain a transition
     for (j, geom) in [Some((64usize, 2usize)), None].into_iter().enumerate() {
-        cfgs.push(Config { n: n / 2, fanout: 4, keylen: 20, kind: 3, values: if j == 0 { 0 } else { 2 }, geom, seed: crate::engine::mix(e.seed, 50 + j as u64) });
+        cfgs.push(Config { n: n / 2, fanout: 4, keylen: 20, kind: 3, values: if j == 0 { 0 } else { 2 }, geom, seed: crate::engine::mix(e.seed, 50 + j as u64), cap: 0 });
+    }
+    // sinks that take only a few bytes per call (and interrupt now and then): what the sink has
+    // not taken yet must not pile up in the builder
+    for (j, &(cap, values, kind)) in [(1u8, 0u8, 1u8), (4, 0, 2), (3, 2, 1), (8, 2, 3)].iter().enumerate() {
+        cfgs.push(Config { n: n / 2, fanout: 4, keylen: 20, kind, values, geom: Some((64, 2)), seed: crate::engine::mix(e.seed, 70 + j as u64), cap });
     }
     if e.tier == crate::engine::Tier::Thorough {
         for (i, geom) in [Some((64usize, 2usize)), None, Some((10_000, 4))].into_iter().enumerate() {
-            cfgs.push(Config { n: 10_000_000, fanout: 4, keylen: 24, kind: 1, values: (i % 2) as u8 * 2, geom, seed: crate::engine::mix(e.seed, 100 + i as u64) });
+            cfgs.push(Config { n: 10_000_000, fanout: 4, keylen: 24, kind: 1, values: (i % 2) as u8 * 2, geom, seed: crate::engine::mix(e.seed, 100 + i as u64), cap: 0 });
         }
         let extra: Vec<Config> = cfgs.iter().take(12).map(|c| Config { values: if c.values == 0 { 1 } else { 0 }, seed: c.seed ^ 1, ..c.clone() }).collect();
         cfgs.extend(extra);
